@@ -234,7 +234,8 @@ def sim_job(cx):
     k = cx.k
     nsim = 3 if not cx.big else 5
     sim = model_consts(k, NAMES[:nsim], PROBING, T=4, UnitNs=model_unit(10**6, k["LatRing"]), Alpha=tla_alpha(nsim, [1, 2, 3, 4]), Conc=nsim)
-    s = tlc(cx, "MCClientGroup", "MCClientGroup.cfg", sim, workers=2 if not cx.big else 6, timeout=3000, edges=False,
+    # (no PROPERTIES in this cfg: TLC would run its temporal checker on every simulated behaviour)
+    s = tlc(cx, "MCClientGroup", "MCClientGroupSim.cfg", sim, workers=2 if not cx.big else 6, timeout=3000, edges=False,
             simulate="num=%d" % (2 if not cx.big else 60), depth=(k["AvailRing"] + 24) * (2 * nsim + 2), seed=cx.seed, jvm=JVM_BIG if cx.big else JVM_SMALL)
     m = re.search(r"The number of states generated: (\d+)", s.out)
     if m:
